@@ -124,6 +124,7 @@ def run(tier):
     C11.rule_R1(res, prog, cg, prop=PROP, rid="C04.R4")
     rule_R5(res, prog)
     rule_R6(res, prog)
+    rule_R7(res, prog)
     return res.finish()
 
 
@@ -422,4 +423,82 @@ def rule_R6(res, prog):
                                      "the key schedule with an all-zero PSK - a peer holding no credential completes the handshake" % (
                                          fn.relfile, ln, fn.name, sorted(srcs) or "ssl->sec.tls13ChosenPsk"), file=fn.relfile, line=ln)
                     res.instance(rid, "%s:%s tls13UsingPsk = TRUE (%s)" % (fn.name, ln, "; ".join(sorted(set(why)))[:80] or "nothing established"), ok, finding=f_)
+    res.floor(rid, 3)
+
+
+def rule_R7(res, prog):
+    """The one TLS <= 1.2 flow in which a client completes a handshake without seeing the server's Certificate and
+    signature is the RFC 5077 resumption: ServerHello, ChangeCipherSpec, Finished keyed by the ticket's master secret.
+    The client admits that flow through sessionTicketState = IN_LIMBO, which therefore may be entered only when a
+    populated ticket was really sent (branch fact sessionTicketState == SENT_TICKET) - otherwise the `resumed` keys come
+    from an all-zero master secret and any peer can finish the handshake.  (C06.R3 decides the same store with the
+    typestate engine; this is the guard-fact form for the authentication property.)"""
+    from sa import cfgutil as cu
+    rid = "C04.R7"
+    res.rule(rid, "the certificate-less resumption flow is admitted (IN_LIMBO) only when a populated ticket was sent")
+    LIMBO = prog.const("SESS_TICKET_STATE_IN_LIMBO")
+    SENT = prog.const("SESS_TICKET_STATE_SENT_TICKET")
+    n = 0
+    for fn in sorted(prog.functions.values(), key=lambda f: f.qname):
+        if not fn.blocks or not fn.relfile.startswith("matrixssl/"):
+            continue
+        gf = None
+        for b in fn.blocks:
+            for i, ln, x in cu.block_exprs(b):
+                for nd in walk(x):
+                    if nd.get("k") == "bin" and nd["op"] == "=" and (strip(nd["l"]) or {}).get("f") == "sessionTicketState" and \
+                            (strip(nd["r"]) or {}).get("k") == "int" and strip(nd["r"])["v"] == LIMBO:
+                        n += 1
+                        if gf is None:
+                            gf = cu.guard_facts(fn)
+                        facts = gf.get(b["id"], frozenset())
+                        ok = any(tr and t_.endswith("sessionTicketState == %d)" % SENT) for (t_, tr) in facts)
+                        f_ = None
+                        if not ok:
+                            f_ = Finding(PROP, rid, fn.name, "ticket-in-limbo entered without a ticket having been sent",
+                                         "%s:%s %s(): sessionTicketState = IN_LIMBO without the branch fact sessionTicketState == SENT_TICKET: a "
+                                         "client that offered only the empty SessionTicket extension accepts ServerHello + ChangeCipherSpec + "
+                                         "Finished from a peer that sent no Certificate and holds no key" % (fn.relfile, ln, fn.name),
+                                         file=fn.relfile, line=ln)
+                        res.instance(rid, "%s:%s sessionTicketState = IN_LIMBO under == SENT_TICKET" % (fn.name, ln), ok, finding=f_)
+    # the secret the abbreviated flow is keyed from must still be the ticket's: from every place of a function that wipes
+    # ssl->sec.masterSecret, no path reaches an IN_LIMBO store unless the ticket state left SENT_TICKET in between
+    ZERO_FNS = ("memset", "__builtin_memset", "__builtin___memset_chk")
+    for fn in sorted(prog.functions.values(), key=lambda f: f.qname):
+        if not fn.blocks or not fn.relfile.startswith("matrixssl/"):
+            continue
+        limbo_stores = [1 for b, ln, nd in fn.nodes() if nd.get("k") == "bin" and nd["op"] == "=" and
+                        (strip(nd["l"]) or {}).get("f") == "sessionTicketState" and (strip(nd["r"]) or {}).get("k") == "int" and strip(nd["r"])["v"] == LIMBO]
+        if not limbo_stores:
+            continue
+        wipes = cu.find_sites(fn, lambda c: c.get("k") == "call" and c.get("fn") in ZERO_FNS and c.get("a") and
+                              any(m.get("k") == "mem" and m.get("f") == "masterSecret" and m.get("r") != "sslSessionId" for m in walk(c["a"][0])) and
+                              len(c["a"]) > 1 and (strip(c["a"][1]) or {}).get("k") == "int" and strip(c["a"][1])["v"] == 0)
+        for (bid, idx, ln, call) in wipes:
+            n += 1
+
+            def leaves_sent(x):
+                return any(m.get("k") == "bin" and m["op"] == "=" and (strip(m["l"]) or {}).get("f") == "sessionTicketState" and
+                           not ((strip(m["r"]) or {}).get("k") == "int" and strip(m["r"])["v"] in (SENT, LIMBO)) for m in walk(x))
+
+            def is_limbo(x):
+                return any(m.get("k") == "bin" and m["op"] == "=" and (strip(m["l"]) or {}).get("f") == "sessionTicketState" and
+                           (strip(m["r"]) or {}).get("k") == "int" and strip(m["r"])["v"] == LIMBO for m in walk(x))
+
+            def not_sent_edge(b, k):
+                t = b.get("term")
+                if t is None or "c" not in t or len(b["succ"]) != 2:
+                    return False
+                return any((not tr) and (txt.endswith("sessionTicketState == %d)" % SENT) or txt == "ssl->sid")
+                           for (txt, tr, nd) in cu._cond_atoms(t["c"], k == 0))
+            # an outcome `state != SENT_TICKET` after the wipe also ends the episode: the IN_LIMBO store lies under == SENT_TICKET
+            esc = cu.escapes(fn, (bid, idx), leaves_sent, exempt_edge=not_sent_edge, target_expr=is_limbo)
+            f_ = None
+            if esc is not None:
+                f_ = Finding(PROP, rid, fn.name, "ticket-in-limbo entered after the master secret was wiped",
+                             "%s:%s %s(): ssl->sec.masterSecret is cleared here (the server did not echo the session id) and the path via lines "
+                             "%s still reaches sessionTicketState = IN_LIMBO with the ticket state unchanged: the ChangeCipherSpec parser "
+                             "then accepts an abbreviated handshake keyed from the all-zero master secret - a peer holding no key completes "
+                             "the handshake" % (fn.relfile, ln, fn.name, [p_[1] for p_ in esc[-6:]]), file=fn.relfile, line=ln)
+            res.instance(rid, "%s:%s master secret wiped -> IN_LIMBO only after the ticket state left SENT_TICKET" % (fn.name, ln), esc is None, finding=f_)
     res.floor(rid, 3)
